@@ -1,14 +1,19 @@
 (* ApiConv.v — correspondence entry points for C11 and C12.  Definitions only.
    An invalid operation / division by zero is printed as the empty byte string. *)
 From Coq Require Import ZArith List Bool.
-From Mpir Require Import Word Limbs MpnBasicDefs MpzDefs DivDefs ConvDefs MpqDefs ApiBasic ApiDiv.
+From Mpir Require Import Word Limbs MpnBasicDefs MpzDefs DivDefs ConvDefs MpqDefs ApiBasic ApiDiv GetDDefs.
 Import ListNotations.
 Local Open Scope Z_scope.
 
+(* the executable models of the conversions to and from double are the bit-level models AS CODED of GetDDefs.v (mpn/generic/get_d.c,
+   mpz/get_d.c, mpz/get_d_2exp.c, extract-dbl.c + mpz/set_d.c, mpq/get_d.c); GetDProofs.v shows them equal to the value-level
+   functions of ConvDefs.v *)
 Definition api_mpz_set_d : api := fun a =>
-  match mpz_set_d (argz a 0) with COk z => out_zval z | Invalid => dz end.
-Definition api_mpz_get_d : api := fun a => [TZ (mpz_get_d (argz a 0))].
-Definition api_mpz_get_d_2exp : api := fun a => let '(d, e) := mpz_get_d_2exp (argz a 0) in [TZ d; TZ e].
+  match mpz_set_d_c (argz a 0) with COk z => out_zval (value z) | Invalid => dz end.
+Definition api_mpz_get_d : api := fun a => [TZ (mpz_get_d_c (mpz_of_Z (argz a 0)))].
+Definition api_mpn_get_d : api := fun a =>
+  let l := limbs_of_Z (Z.abs (argz a 0)) in [TZ (mpn_get_d_c l (Z.of_nat (length l)) (argz a 1) (argz a 2))].
+Definition api_mpz_get_d_2exp : api := fun a => let '(d, e) := mpz_get_d_2exp_c (mpz_of_Z (argz a 0)) in [TZ d; TZ e].
 Definition api_mpz_cmp_d : api := fun a => match mpz_cmp_d (argz a 0) (argz a 1) with COk c => [TZ c] | Invalid => dz end.
 Definition api_mpz_cmpabs_d : api := fun a => match mpz_cmpabs_d (argz a 0) (argz a 1) with COk c => [TZ c] | Invalid => dz end.
 (* limb-level comparison (sizes, then limbs) and the value-level ones *)
@@ -50,7 +55,7 @@ Definition api_mpq_set_si : api := fun a => out_q (argq a 0).
 Definition api_mpq_set_ui : api := fun a => out_q (argq a 0).
 Definition api_mpq_set_d : api := fun a => match mpq_set_d (argz a 0) with COk q => out_q q | Invalid => dz end.
 Definition api_mpq_set_f : api := fun a => out_q (mpq_set_f (argz a 0) (argz a 1)).
-Definition api_mpq_get_d : api := fun a => [TZ (mpq_get_d (argz a 0) (argz a 1))].
+Definition api_mpq_get_d : api := fun a => [TZ (mpq_get_d_c (mpz_of_Z (argz a 0)) (mpz_of_Z (argz a 1)))].
 Definition api_mpq_cmp : api := fun a =>
   let y := if argz a 4 =? 1 then argq a 0 else argq a 2 in
   [TZ (mpq_cmp (argz a 0) (argz a 1) (qn y) (qd y)); TZ (b2z (mpq_equal (argz a 0) (argz a 1) (qn y) (qd y)))].
